@@ -27,6 +27,9 @@ enum Row {
     /// re-use enabled with at most `max` consecutive re-use labels, then THIS label sent 1 + `sent` times (all fed
     /// to the receiver): the counter is below, at, or (for sent > max) once past the limit
     AfterSameWithMax { max: u8, sent: u8 },
+    /// THIS label sent, re-use switched off, another label (or broadcast) sent, re-use switched on again (plain or
+    /// with a limit): what was sent while re-use was off must not leave a stale reference behind
+    AfterOffOtherOn { bcast: bool, max: u8 },
 }
 
 struct Case<'a> {
@@ -63,6 +66,29 @@ fn run_case(rep: &Report, acc: &mut Acc, c: &Case) {
             if c.row == Row::AfterSameOff {
                 enc.disable_re_use_label();
                 steps.push("disable_re_use_label".into());
+            }
+        }
+        Row::AfterOffOtherOn { bcast, max } => {
+            let other = if bcast { Lbl::Bcast } else if c.l == L6B { L6A } else { L6B };
+            for (k, l) in [(0u8, c.l), (1, other)] {
+                let mut scratch = [0u8; 32];
+                let o = do_encap(&mut enc, &[0x42 + k], 0, 0x0800, l, &mut scratch);
+                let n = o.len().unwrap_or(0);
+                if let DecapOut::Completed { buf, .. } = do_decap(&mut rx, &scratch[..n]) {
+                    let _ = rx.provision_storage(buf.into_boxed_slice());
+                }
+                steps.push(format!("encap(1-byte pdu, label {}) -> {:?}; decap", l.short(), o));
+                if k == 0 {
+                    enc.disable_re_use_label();
+                    steps.push("disable_re_use_label".into());
+                }
+            }
+            if max == 0 {
+                enc.enable_re_use_label();
+                steps.push("enable_re_use_label".into());
+            } else {
+                enc.enable_re_use_label_with_max_consecutive(max);
+                steps.push(format!("enable_re_use_label_with_max_consecutive({})", max));
             }
         }
         Row::AfterSameWithMax { max, sent } => {
@@ -234,7 +260,7 @@ fn run_case(rep: &Report, acc: &mut Acc, c: &Case) {
 
 pub fn run(tier: Tier) -> i32 {
     let rep = Report::new("C01", tier);
-    rep.set_rule("lattice: label kind x row (re-use on/off, after the same label with re-use on/off, after another label followed by failed encap_ext/encap calls with this label, after a complete packet with this label interleaved inside another PDU's fragment train, after 1 + k packets with this label under a limit of m consecutive re-use labels for (m,k) in {(1,1),(2,1),(2,2),(1,2)}) x PDU length (every length 0..=4100) x buffer length relative to the exact packet size and beyond 4097 x protocol type x storage size >= PDU x content pattern, all contents for lengths 0..=2 (0..=1 in quick); each cell = real encap + real decap of exactly the reported bytes; distinct = (status, label kind, row, regime)");
+    rep.set_rule("lattice: label kind x row (re-use on/off, after the same label with re-use on/off, after another label followed by failed encap_ext/encap calls with this label, after a complete packet with this label interleaved inside another PDU's fragment train, after 1 + k packets with this label under a limit of m consecutive re-use labels for (m,k) in {(1,1),(2,1),(2,2),(1,2)}, after this label, re-use off, another label or broadcast, re-use on again) x PDU length (every length 0..=4100) x buffer length relative to the exact packet size and beyond 4097 x protocol type x storage size >= PDU x content pattern, all contents for lengths 0..=2 (0..=1 in quick); each cell = real encap + real decap of exactly the reported bytes; distinct = (status, label kind, row, regime)");
     rep.assume("payload contents beyond 2 bytes are represented by four patterns (position tag, zeros, ones, second tag)");
     let labels = [L6A, L3A, Lbl::Bcast, L6B, L3B, L3Z];
     let ps: Vec<usize> = (0..=4100).collect();
@@ -246,7 +272,7 @@ pub fn run(tier: Tier) -> i32 {
             return;
         }
         let mut acc = Acc::default();
-        let rows: Vec<Row> = if l.is_addr() { vec![Row::Plain(true), Row::Plain(false), Row::AfterSame, Row::AfterSameOff, Row::AfterOtherThenFailed, Row::AfterInterleavedTrain, Row::AfterRejectedForStorage, Row::AfterSameWithMax { max: 1, sent: 1 }, Row::AfterSameWithMax { max: 2, sent: 1 }, Row::AfterSameWithMax { max: 2, sent: 2 }, Row::AfterSameWithMax { max: 1, sent: 2 }] } else { vec![Row::Plain(true), Row::Plain(false)] };
+        let rows: Vec<Row> = if l.is_addr() { vec![Row::Plain(true), Row::Plain(false), Row::AfterSame, Row::AfterSameOff, Row::AfterOtherThenFailed, Row::AfterInterleavedTrain, Row::AfterRejectedForStorage, Row::AfterSameWithMax { max: 1, sent: 1 }, Row::AfterSameWithMax { max: 2, sent: 1 }, Row::AfterSameWithMax { max: 2, sent: 2 }, Row::AfterSameWithMax { max: 1, sent: 2 }, Row::AfterOffOtherOn { bcast: false, max: 0 }, Row::AfterOffOtherOn { bcast: true, max: 0 }, Row::AfterOffOtherOn { bcast: false, max: 4 }] } else { vec![Row::Plain(true), Row::Plain(false)] };
         for (ri, &row) in rows.iter().enumerate() {
             for lw in [l.wire_len(), 0] {
                 let size = 4 + lw + p;
